@@ -588,4 +588,217 @@ mut(
     'NoneStr = "```None```"',
 )
 
+# ------------------------------------------------------------------------------ C06
+JE = "cdd/json_schema/utils/emit_utils.py"
+mut(
+    "c06-description-or-none-again",
+    "C06",
+    "C06.meta",
+    "cdd/json_schema/emit.py",
+    """            ).lstrip("\\n")
+        ),
+""",
+    """            ).lstrip("\\n")
+            or None
+        ),
+""",
+    mention=["description"],
+)
+mut(
+    "c06-optional-also-required",
+    "C06",
+    "C06.required",
+    JE,
+    """        if _param["type"].startswith("Optional["):
+            _param["type"] = _param["type"][len("Optional[") : -1]
+""",
+    """        if _param["type"].startswith("Optional["):
+            _param["type"] = _param["type"][len("Optional[") : -1]
+            if "default" not in _param:
+                required.append(name)
+""",
+)
+mut(
+    "c06-datetime-not-required",
+    "C06",
+    "C06.required",
+    JE,
+    """        _param.update({"type": "string", "format": "date-time"})
+        required.append(name)
+""",
+    """        _param.update({"type": "string", "format": "date-time"})
+""",
+)
+mut(
+    "c06-table-float-maps-to-float",
+    "C06",
+    "C06.tables",
+    "cdd/json_schema/utils/parse_utils.py",
+    '    "number": "float",\n',
+    '    "number": "float",\n    "double": "float",\n',
+)
+mut(
+    "c06-pattern-separator",
+    "C06",
+    "C06.pattern",
+    JE,
+    '                    "pattern": "|".join(enum),\n',
+    '                    "pattern": "^({})$".format("|".join(enum)),\n',
+)
+mut(
+    "c06-schema-draft",
+    "C06",
+    "C06.meta",
+    "cdd/json_schema/emit.py",
+    '"https://json-schema.org/draft/2020-12/schema"',
+    '"http://json-schema.org/draft-07/schema#"',
+)
+# ------------------------------------------------------------------------------ C02
+mut(
+    "c02-pad-on-the-right",
+    "C02",
+    "C02.align.parse",
+    "cdd/function/parse.py",
+    """                list(islice(cycle((None,)), diff))
+                + getattr(function_def.args, defaults),""",
+    """                getattr(function_def.args, defaults)
+                + list(islice(cycle((None,)), diff)),""",
+)
+mut(
+    "c02-pad-by-len-args",
+    "C02",
+    "C02.align.parse",
+    "cdd/function/parse.py",
+    """        diff = abs(
+            len(getattr(function_def.args, args))
+            - len(getattr(function_def.args, defaults))
+        )""",
+    """        diff = len(getattr(function_def.args, args)) - bool(
+            getattr(function_def.args, defaults)
+        )""",
+)
+mut(
+    "c02-defaults-skip-none",
+    "C02",
+    "C02.align.emit",
+    "cdd/function/emit.py",
+    """                else cdd.shared.ast_utils.set_value(param[1].get("default"))
+            ),
+            params_no_kwargs,
+        )
+    )""",
+    """                else cdd.shared.ast_utils.set_value(param[1].get("default"))
+            ),
+            filter(lambda param: "default" in param[1], params_no_kwargs),
+        )
+    )""",
+)
+mut(
+    "c02-kwonly-defaults-to-positional",
+    "C02",
+    "C02.align.emit",
+    "cdd/function/emit.py",
+    "        kwonlyargs, kw_defaults, defaults = args_from_params, defaults_from_params, []\n",
+    "        kwonlyargs, kw_defaults, defaults = args_from_params, [], defaults_from_params\n",
+)
+mut(
+    "c02-argparse-name-renamed-on-emit",
+    "C02",
+    "C02.shape",
+    "cdd/shared/ast_utils.py",
+    """                Name("argument_parser", Load(), lineno=None, col_offset=None),
+                "add_argument",""",
+    """                Name("parser", Load(), lineno=None, col_offset=None),
+                "add_argument",""",
+)
+mut(
+    "c02-class-parser-drops-assign-arm",
+    "C02",
+    "C02.shape",
+    "cdd/class_/parse.py",
+    "        elif isinstance(e, Assign):\n            val = cdd.shared.ast_utils.get_value(e)\n",
+    "        elif isinstance(e, Assign) and False:\n            val = cdd.shared.ast_utils.get_value(e)\n",
+    expect="analysis-error-or-violation",
+)
+mut(
+    "c02-choices-read-as-choice",
+    "C02",
+    "C02.keywords",
+    "cdd/argparse_function/utils/emit_utils.py",
+    '            if keyword.arg == "choices"\n',
+    '            if keyword.arg == "choice"\n',
+)
+mut(
+    "c02-optional-depends-on-default",
+    "C02",
+    "C02.optional",
+    "cdd/argparse_function/utils/emit_utils.py",
+    '    if not required and "Optional" not in typ:\n',
+    '    if not required and default is None and "Optional" not in typ:\n',
+)
+mut(
+    "c02-falsy-default-in-class-emit",
+    "C02",
+    "C02.falsy",
+    "cdd/shared/ast_utils.py",
+    '    if "default" in _param:\n',
+    '    if _param.get("default"):\n',
+)
+# ------------------------------------------------------------------------------ C14
+mut(
+    "c14-argparse-ir-without-doc",
+    "C14",
+    "C14.shape",
+    "cdd/argparse_function/parse.py",
+    """        "type": function_type or get_function_type(function_def),
+        "doc": "",
+        "params": OrderedDict(),
+    }""",
+    """        "type": function_type or get_function_type(function_def),
+        "params": OrderedDict(),
+    }""",
+    expect="violation-even-if-later-store",
+)
+mut(
+    "c14-sqlalchemy-table-no-doc",
+    "C14",
+    "C14.shape",
+    "cdd/sqlalchemy/parse.py",
+    '        {"type": None, "doc": "", "params": OrderedDict()}\n',
+    '        {"type": None, "params": OrderedDict()}\n',
+)
+mut(
+    "c14-ir-extra-key",
+    "C14",
+    "C14.shape",
+    "cdd/shared/docstring_parsers.py",
+    """        "doc": "",
+        "params": OrderedDict(),
+        "returns": None,
+    }
+    if not docstring:""",
+    """        "doc": "",
+        "style": style.name,
+        "params": OrderedDict(),
+        "returns": None,
+    }
+    if not docstring:""",
+)
+mut(
+    "c14-class-parser-keeps-asterisks",
+    "C14",
+    "C14.names",
+    "cdd/class_/parse.py",
+    '            target_id: str = e.target.id.lstrip("*")\n',
+    "            target_id: str = e.target.id\n",
+)
+mut(
+    "c14-param-entry-extra-key",
+    "C14",
+    "C14.entry",
+    "cdd/class_/parse.py",
+    '                {"typ": typ} if val is None else dict(typ=typ, **val)\n',
+    '                {"typ": typ} if val is None else dict(typ=typ, annotated=True, **val)\n',
+)
+
 MUTANTS = M
